@@ -104,3 +104,30 @@ def tuples(out: str, tag: str):
             k += 1
         yield re.sub(r'\s+>>', '>>', re.sub(r'<<\s+', '<<', " ".join(out[j:k + 1].split())))  # (TLC wraps long tuples: "<< a,\n b >>")
         i = k + 1
+
+
+def run_tlaps(module, deps=(), timeout=600):
+    """Check the proofs of spec/<module>.tla with the TLA+ proof system (tlapm).  A proof is about the SPECIFICATION; the result goes
+    into the evidence, a failure is reported as a MODEL-PROOF line and never changes a check's exit code."""
+    import re as _re
+
+    if not shutil.which("tlapm"):
+        return {"ran": False, "why": "tlapm not on PATH"}
+    wd = scratch()
+    try:
+        for f in (module + ".tla",) + tuple(deps):
+            shutil.copy(os.path.join(SPEC, f), wd)
+        t0 = time.time()
+        try:
+            p = subprocess.run(["tlapm", module + ".tla"], cwd=wd, capture_output=True, text=True, timeout=timeout)
+            out = p.stdout + p.stderr
+        except subprocess.TimeoutExpired:
+            out = "timeout"
+        m = _re.search(r"All (\d+) obligations proved", out)
+        res = {"ran": True, "module": module, "all_proved": bool(m), "obligations": int(m.group(1)) if m else 0, "secs": round(time.time() - t0, 1)}
+        if not m:
+            res["tail"] = out[-300:]
+            print(f"MODEL-PROOF tlapm did not prove every obligation of {module} (specification only; not a verdict)")
+        return res
+    finally:
+        shutil.rmtree(wd, ignore_errors=True)
